@@ -49,8 +49,8 @@ def histories(draw):
     vt = draw(st.sampled_from([None, "id", "log"]))
     pt = st.lists(st.integers(0, 4), min_size=D, max_size=D)
     kinds = ["call", "call", "call", "call_norecord"] + (["add"] if level in (0, 2) else [])
-    op = st.fixed_dictionaries(dict(op=st.sampled_from(kinds), pt=pt, v=st.sampled_from(VALS), sd=st.sampled_from(SDS),
-                                    sd_given=st.booleans()))
+    op = scenario.record(op=st.sampled_from(kinds), pt=pt, v=st.sampled_from(VALS), sd=st.sampled_from(SDS),
+                         sd_given=st.booleans())
     ops = draw(st.lists(op, min_size=1, max_size=40))
     return dict(D=D, level=level, cache=cache, vt=vt, ops=ops)
 
@@ -185,10 +185,13 @@ def body_run(scn):
 
 
 def plan(tier):
-    return [("histories", 16), ("runs", 16)]
+    return [("histories", 16), ("runs", 16)] + ([("fuzz", 16)] if tier == "thorough" else [])
 
 
 def run_part(res, part, tier, seed, shard, nshards):
+    if part == "fuzz":
+        # coverage-guided campaign (atheris/libFuzzer) on the same Hypothesis test, empty corpus, fixed -runs and -seed
+        return engine.run_fuzz_part(res, "C12", "fuzz", 20000, seed, shard)
     if part == "histories":
         engine.hyp_sweep(res, histories(), body_hist, runlevel.shard_count(N_HIST[tier], shard, nshards), seed * 1000 + shard)
     else:
@@ -210,3 +213,7 @@ def replay(part, case):
 
 def floors(tier):
     return {"hist:nontrivial": 200, "run:repeat-evaluation": 10}
+
+
+def fuzz_entry(entry):
+    return histories(), body_hist
